@@ -107,8 +107,9 @@ class TriggerObject:
         """
         if self._producer._filter is not None:
             raise ValueError()
-        self._producer._filter = _get_producer_filter(filter)
-        return self
+        producer = _get_producer(self)
+        producer._filter = _get_producer_filter(filter)
+        return self.__class__(producer)
 
     only_at = only_on
 
